@@ -277,6 +277,9 @@ def oracle_C15(tier):
     docs = [s for s, _ in inputs.grammar_docs('C15', n, 3, maxchars=300)]
     docs += ['\\a{x} mid \\a{x} end', '\\begin{e}{\\a}\\a\\end{e}',
              '\\begin{itemize}\\item a\\item a\\end{itemize}', '\\s{t}\\s{t}\\s{t}']
+    # argument lists with textually equal groups (several copies so that the
+    # random histories reach their argument-list operations)
+    docs += ['\\cmd{a}{a} tail', '\\cmd{a}{b}{a} t', '\\cmd[a]{b}[a]', 'x \\cmd{a}{a}{b} \\k{v}{v}'] * 3
     res = Result('oracle-C15')
     for r in pmap(_c15_chunk, [(c, str(i), nh, length) for i, c in enumerate(chunked(docs, NPROC * 2))]):
         res.merge(r)
